@@ -6,8 +6,8 @@ import (
 )
 
 func getSliceProperty[TPropertyType any](value *any, targetType reflect.Type) (*TPropertyType, error) {
-	// Ensure the value is also a slice
-	if reflect.TypeOf(*value).Kind() != reflect.Slice {
+	// Ensure the value is also a slice (a JSON5 'null' arrives as a nil interface which has no type)
+	if *value == nil || reflect.TypeOf(*value).Kind() != reflect.Slice {
 		return nil, fmt.Errorf("value %v cannot be converted to type %s", value, targetType.String())
 	}
 
@@ -22,8 +22,9 @@ func getSliceProperty[TPropertyType any](value *any, targetType reflect.Type) (*
 		sourceElem := sourceSlice.Index(i).Interface()
 		sourceElemValue := reflect.ValueOf(sourceElem)
 
-		// Check if the source element can be converted to the target element type
-		if !sourceElemValue.Type().ConvertibleTo(targetElemType) {
+		// Check if the source element can be converted to the target element type.
+		// A 'null' element yields an invalid (zero) reflect.Value which has no type to ask
+		if !sourceElemValue.IsValid() || !sourceElemValue.Type().ConvertibleTo(targetElemType) {
 			return nil, fmt.Errorf("element %v at index %d cannot be converted to type %s", sourceElem, i, targetElemType.String())
 		}
 
